@@ -7,6 +7,8 @@ use corrlib::*;
 use serde_json::json;
 use std::time::Duration;
 
+mod climodel;
+
 #[derive(Debug)]
 enum Shard {
     Leaf(usize),
@@ -59,13 +61,14 @@ fn eval(
     opts: &[String],
     counter: &mut usize,
     rng: &mut Rng,
+    cli: &mut Vec<(String, String, serde_json::Value)>,
 ) -> Result<String, String> {
     match t {
         Shard::Leaf(i) => Ok(inputs[*i].name.clone()),
         Shard::Node(children) => {
             let mut args = vec![];
             for c in children {
-                args.push(eval(c, dir, inputs, opts, counter, rng)?);
+                args.push(eval(c, dir, inputs, opts, counter, rng, cli)?);
             }
             rng.shuffle(&mut args);
             let cfg = RunCfg {
@@ -81,12 +84,41 @@ fn eval(
             if out.exit != Some(0) {
                 return Err(format!("shard run exited with {:?}: {}", out.exit, out.stderr.lines().last().unwrap_or("")));
             }
+            model_request(dir, &cfg.args, inputs, opts, &out.stdout, cli);
             *counter += 1;
             let name = format!("shard{}.info", counter);
             std::fs::write(dir.join(&name), &out.stdout).map_err(|e| e.to_string())?;
             Ok(name)
         }
     }
+}
+
+/// the same run through the Lean model `Cli.run` (only when every argument is an lcov file: a leaf
+/// may be a JaCoCo report)
+fn model_request(
+    dir: &std::path::Path,
+    args: &[String],
+    inputs: &[Input],
+    opts: &[String],
+    stdout: &str,
+    cli: &mut Vec<(String, String, serde_json::Value)>,
+) {
+    if args.iter().any(|a| inputs.iter().any(|i| &i.name == a && i.format != "Info")) {
+        return;
+    }
+    let ins: Vec<Vec<u8>> = args.iter().map(|a| std::fs::read(dir.join(a)).unwrap_or_default()).collect();
+    let ccfg = climodel::CliCfg {
+        branch: opts.iter().any(|o| o == "--branch"),
+        source_dir: None,
+        prefix_dir: None,
+        ignore: vec![],
+        keep: vec![],
+        ignore_not_existing: false,
+        filter: None,
+    };
+    let req = climodel::cli_request(&ccfg, &dir.canonicalize().unwrap(), &ins);
+    cli.push((req, stdout.to_string(), json!({"op": "cli.run", "opts": opts, "args": args,
+        "inputs_hex": ins.iter().map(|b| hex(b)).collect::<Vec<_>>()})));
 }
 
 pub fn run(rep: &mut Report) {
@@ -97,6 +129,7 @@ pub fn run(rep: &mut Report) {
         .to_string();
     let mut rng = Rng::new(rep.seed ^ 0xC06);
     let n = rep.budget(90, 8);
+    let mut cli: Vec<(String, String, serde_json::Value)> = vec![];
     for c in 0..n {
         let dir = rep.workdir.join(format!("case{}", c));
         let _ = std::fs::remove_dir_all(&dir);
@@ -134,8 +167,10 @@ pub fn run(rep: &mut Report) {
             rep.fail("oracle", None, format!("direct run exited with {:?}", direct.exit), case);
             continue;
         }
+        let direct_args: Vec<String> = inputs.iter().map(|i| i.name.clone()).collect();
+        model_request(&dir, &direct_args, &inputs, &opts, &direct.stdout, &mut cli);
         let mut counter = 0;
-        let root = match eval(&tree, &dir, &inputs, &opts, &mut counter, &mut rng) {
+        let root = match eval(&tree, &dir, &inputs, &opts, &mut counter, &mut rng, &mut cli) {
             Ok(name) => std::fs::read_to_string(dir.join(name)).unwrap_or_default(),
             Err(e) => {
                 rep.fail("oracle", None, e, case);
@@ -184,6 +219,25 @@ pub fn run(rep: &mut Report) {
             if d.as_ref().ok() != Some(&want) {
                 rep.fail("oracle", None, "direct report differs from the independent aggregate".into(), json!({"case": case}));
             }
+        }
+    }
+    cli_tie(rep, &cli);
+}
+
+/// tie of the model of one run (`Cli.run`) to the real binary on every shard run and direct run
+fn cli_tie(rep: &mut Report, cli: &[(String, String, serde_json::Value)]) {
+    let reqs: Vec<String> = cli.iter().map(|x| x.0.clone()).collect();
+    let answers = run_model(&reqs, &rep.workdir, "cli");
+    for (i, (req, real, case)) in cli.iter().enumerate() {
+        rep.count("cli.model.runs");
+        if let Some(what) = climodel::compare(&answers[i], real) {
+            rep.disagreements_checked += 1;
+            let mut cj = case.clone();
+            cj["request"] = json!(req);
+            cj["real"] = json!(real);
+            cj["model"] = json!(answers[i]);
+            rep.fail("disagreement", None,
+                format!("a grcov run differs from the Lean model Cli.run (theorems C06_cli_* no longer transfer): {}", what), cj);
         }
     }
 }
